@@ -426,6 +426,7 @@ class MSim:
         self.chains = [self.mc[self.models[i].config_name(r)] for i, r in enumerate(self.d['root'])]
         self.mem = set()
         self.forced = set()
+        self.done = set()   # forced and recomputed since: whether the mark is still shown is left open
 
     def obj(self, i, fn):
         m = self.models[i]
@@ -446,6 +447,9 @@ class MSim:
         if kind != 'inmemory':
             self.stored.add(o)
         self.mem.add(o)
+        if o in self.forced:
+            self.forced.discard(o)   # forcing is for the next computation, which is done now
+            self.done.add(o)
 
     def close(self):
         self.w.dispose()
@@ -493,10 +497,13 @@ def run_mhist(name, vids, hist):
                     out.append(Violation('MultiChain.force raised', f'{name}{vids} {case["hist"]}: {type(e).__name__}: {e}', case))
                     break
                 sim.forced |= exp_forced
+                sim.done -= exp_forced
                 sim.mem -= exp_forced
                 bad = {}
                 for i, (ch, m) in enumerate(zip(sim.chains, sim.models)):
                     for fn, t in ch.tasks.items():
+                        if sim.obj(i, fn) in sim.done:
+                            continue
                         if bool(t.is_forced) != (sim.obj(i, fn) in sim.forced):
                             bad[(i, fn)] = bool(t.is_forced)
                 if bad:
